@@ -965,6 +965,9 @@ pub fn opsig(op: &Op) -> String {
             Src::TypelessRaw(_) => "TypelessRaw".into(),
             Src::SizelessRaw(_) => "SizelessRaw".into(),
             Src::Pop(_) => "PopHandle".into(),
+            Src::HandleUnchecked(_) => "PopHandle(unchecked)".into(),
+            Src::UserTyped(_) => "UserTyped".into(),
+            Src::UserLazy(_) => "Lazy(UserTyped)".into(),
             Src::Remove(..) => "RemoveHandle".into(),
             Src::SwapRemove(..) => "SwapRemoveHandle".into(),
             Src::Drained(..) => "DrainedElement".into(),
